@@ -90,6 +90,7 @@ func Judge(cs Case, res Result) []Failure {
 	lists := 0                  // features lists seen on this session
 	listSt := uint8(0)
 	var advNames []string // initiator: names offered by the current list
+	var advReq []string   // initiator: names offered as mandatory by the current list
 	claimedReady := cs.St0&Ready != 0
 	pending := 0 // restart bookkeeping: 1 = restart just negotiated, 2 = server read the header
 	expectHdr := true
@@ -158,11 +159,15 @@ func Judge(cs Case, res Result) []Failure {
 					negInList = 0
 					cache = map[int]cacheEnt{}
 					advNames = nil
+					advReq = nil
 					for _, a := range it.Adv {
 						if a.Junk {
 							break
 						}
 						advNames = append(advNames, fmt.Sprintf("%d.%d", a.NS, a.Loc))
+						if a.Req {
+							advReq = append(advReq, fmt.Sprintf("%d.%d", a.NS, a.Loc))
+						}
 						if k := find(a.NS, a.Loc); k >= 0 {
 							if cfg[k].ParseErr {
 								break
@@ -331,6 +336,27 @@ func Judge(cs Case, res Result) []Failure {
 	if !failed {
 		if res.State&Ready == 0 {
 			add("C01", "ready-sound", "done-without-ready", "established without the ready bit (state %d)", res.State)
+		}
+		if !claimedReady && !server {
+			// stronger reading: a mandatory feature of the last list that was not eligible when
+			// the list was read (so it was not cached) but is eligible now
+			for _, n := range advReq {
+				k := -1
+				for i, b := range cfg {
+					if b.Name() == n {
+						k = i
+						break
+					}
+				}
+				if k < 0 {
+					continue
+				}
+				b := cfg[k]
+				if _, cached := cache[b.NS]; !cached && b.Negotiable && !negd[b.NS] && !b.ParseErr && b.Eligible(res.State&^Ready) {
+					add("C01", "ready-sound", "mandatory-eligible-after-list", "established although mandatory %s of the last features list became eligible after the list was read (state %d) and was not negotiated", b.Name(), res.State)
+					break
+				}
+			}
 		}
 		if !claimedReady {
 			for ns, o := range cache {
